@@ -30,6 +30,7 @@ struct P {
     cfg: Config,
     wb: Option<Worterbuch>,
     generation: u64,
+    fresh: u64,
     client: Uuid,
     nclient: u128,
 }
@@ -53,6 +54,7 @@ impl P {
             cfg: cfg.clone(),
             wb: Some(Worterbuch::with_config(cfg)),
             generation: 1,
+            fresh: 1,
             client: Uuid::nil(),
             nclient: 0,
         };
@@ -144,9 +146,11 @@ pub fn main_run(args: &[String]) -> i32 {
                 }
                 "mutate" => {
                     if p.wb.is_some() {
-                        p.generation += 1;
+                        // a new content, or (with "to") one the store had before
+                        p.generation = r.get("to").and_then(|x| x.as_u64()).unwrap_or(p.fresh + 1);
+                        p.fresh = p.fresh.max(p.generation);
                         p.establish().await;
-                        emit(&mut out, json!({"step": "mutate"}));
+                        emit(&mut out, json!({"step": "mutate", "gen": p.generation}));
                     }
                 }
                 "flush" => {
@@ -197,8 +201,9 @@ pub fn main_run(args: &[String]) -> i32 {
                                 Err(_) => p.wb = Some(Worterbuch::with_config(p.cfg.clone())),
                             }
                             let (store, gglw, gone) = p.readback();
-                            emit(&mut out, json!({"step": "loaded", "store": store, "gglw": gglw, "gone": gone}));
-                            p.generation += 1;
+                            p.generation = p.fresh + 1;
+                            p.fresh = p.generation;
+                            emit(&mut out, json!({"step": "loaded", "store": store, "gglw": gglw, "gone": gone, "mem": p.generation}));
                             p.client = Uuid::nil();
                             p.establish().await;
                         }
